@@ -6,11 +6,14 @@
 (* the case lies inside the property's quantifier and the learner's domain, and recomputes work items and  *)
 (* output width); Out = the caller's output objects after the call (history class K7: outputs already      *)
 (* sized); Pred.sens for EVERY object when run.sensall = 1; ResOnly = the residual-only call path.          *)
+(* LooSplit = the rows LeaveOneOut really routed into the training / test part of model m (hooks loo_train  *)
+(* / loo_test); Counter = the bootstrap's OWN visit counter of object i at the final division (hook          *)
+(* boot_counter) against the tally of the logged test folds (CvBoot!CounterIsPasses on the recording).      *)
 (* Prop conjuncts = what the property states; Impl conjuncts = how the present code does it (PropOnly off). *)
 EXTENDS CvDomain, TraceBase
 CONSTANT PropOnly
-VARIABLES l, phase, run, created, joined, merged, opos, cur, seenTest, npass, nsplit, seen
-tvars == <<l, phase, run, created, joined, merged, opos, cur, seenTest, npass, nsplit, seen>>
+VARIABLES l, phase, run, created, joined, merged, opos, cur, seenTest, npass, nsplit, seen, tally, nloo
+tvars == <<l, phase, run, created, joined, merged, opos, cur, seenTest, npass, nsplit, seen, tally, nloo>>
 Ev == Tr[l]
 Step == l' = l + 1
 Tol == 1000               \* 1e-9 relative, in units of 1e-12
@@ -21,7 +24,7 @@ CvSchemes == {"boot", "loo", "kfold"}
 \* nothing; the bootstrap only single-threaded (with more workers the shared generator word is raced - property C06)
 Repeatable(r) == r.scheme \in {"loo", "kfold"} \/ (r.scheme = "boot" /\ r.nth = 1)
 TInit == /\ l = 1 /\ phase = "idle" /\ run = NoRun /\ created = {} /\ joined = {} /\ merged = <<>> /\ opos = 0
-         /\ cur = <<>> /\ seenTest = <<>> /\ npass = 0 /\ nsplit = 0 /\ seen = {}
+         /\ cur = <<>> /\ seenTest = <<>> /\ npass = 0 /\ nsplit = 0 /\ seen = {} /\ tally = <<>> /\ nloo = 0
 Item(ev) == ev.base + ev.th
 Min(a, b) == IF a < b THEN a ELSE b
 
@@ -45,7 +48,7 @@ OrchComplete == \* everything created was joined and merged exactly once; guard 
    /\ (PropOnly \/ opos = Len(ExpectedOrch))
 
 TReset == /\ l <= Len(Tr) /\ Ev.e = "Reset" /\ phase = "idle" /\ Step
-          /\ run' = NoRun /\ created' = {} /\ joined' = {} /\ merged' = <<>> /\ opos' = 0 /\ cur' = <<>> /\ seenTest' = <<>> /\ npass' = 0 /\ nsplit' = 0 /\ seen' = {}
+          /\ run' = NoRun /\ created' = {} /\ joined' = {} /\ merged' = <<>> /\ opos' = 0 /\ cur' = <<>> /\ seenTest' = <<>> /\ npass' = 0 /\ nsplit' = 0 /\ seen' = {} /\ tally' = <<>> /\ nloo' = 0
           /\ phase' = "reset"
 TRun == /\ l <= Len(Tr) /\ Ev.e = "Run" /\ phase = "reset" /\ Step
         /\ run' = [scheme |-> Ev.scheme, n |-> Ev.n, ny |-> Ev.ny, nlv |-> Ev.nlv, nth |-> Ev.nth, total |-> Ev.total,
@@ -59,23 +62,24 @@ TRun == /\ l <= Len(Tr) /\ Ev.e = "Run" /\ phase = "reset" /\ Step
               /\ Ev.scol = (IF Ev.algo = "PLS" THEN Ev.ny * Ev.nlv ELSE Ev.ny)
               /\ Ev.mag = (IF Ev.dcls = 2 THEN 0 - 6 ELSE IF Ev.dcls = 3 THEN 6 ELSE 0)
               /\ (Ev.reuse = 1 <=> Ev.hist > 0))
-        /\ phase' = "orch" /\ UNCHANGED <<created, joined, merged, opos, cur, seenTest, npass, nsplit, seen>>
+        /\ tally' = [i \in 1..Ev.n |-> 0]                    \* tally[i + 1] = logged passes in which object i sat in a test fold
+        /\ phase' = "orch" /\ UNCHANGED <<created, joined, merged, opos, cur, seenTest, npass, nsplit, seen, nloo>>
 TCreate == /\ l <= Len(Tr) /\ Ev.e = "Create" /\ phase = "orch" /\ Step
            /\ Item(Ev) \notin created                                   \* Prop: a work item is started once
            /\ ImplOrch("Create")
            /\ created' = created \cup {Item(Ev)} /\ opos' = opos + 1
-           /\ UNCHANGED <<phase, run, joined, merged, cur, seenTest, npass, nsplit, seen>>
+           /\ UNCHANGED <<phase, run, joined, merged, cur, seenTest, npass, nsplit, seen, tally, nloo>>
 TJoin == /\ l <= Len(Tr) /\ Ev.e = "Join" /\ phase = "orch" /\ Step
          /\ Item(Ev) \in created /\ Item(Ev) \notin joined
          /\ ImplOrch("Join")
          /\ joined' = joined \cup {Item(Ev)} /\ opos' = opos + 1
-         /\ UNCHANGED <<phase, run, created, merged, cur, seenTest, npass, nsplit, seen>>
+         /\ UNCHANGED <<phase, run, created, merged, cur, seenTest, npass, nsplit, seen, tally, nloo>>
 TMerge == /\ l <= Len(Tr) /\ Ev.e = "Merge" /\ phase = "orch" /\ Step
           /\ Item(Ev) \in joined                                          \* Prop: no merge before join
           /\ Item(Ev) \notin Range(merged)                                \* Prop: merged once
           /\ ImplOrch("Merge")
           /\ merged' = Append(merged, Item(Ev)) /\ opos' = opos + 1
-          /\ UNCHANGED <<phase, run, created, joined, cur, seenTest, npass, nsplit, seen>>
+          /\ UNCHANGED <<phase, run, created, joined, cur, seenTest, npass, nsplit, seen, tally, nloo>>
 
 Rows2(g) == [r \in 1..Len(g) |-> [c \in 1..Len(g[r]) |-> g[r][c]]]
 TGroups == /\ l <= Len(Tr) /\ Ev.e = "Groups" /\ phase \in {"orch", "folds"} /\ Step
@@ -87,7 +91,7 @@ TGroups == /\ l <= Len(Tr) /\ Ev.e = "Groups" /\ phase \in {"orch", "folds"} /\ 
               /\ (PropOnly \/ IF run.scheme = "kfold" THEN G = LabelGid(run.lab) ELSE ImplShape(G, run.groups, Ev.n))
               /\ cur' = G
            /\ seenTest' = <<>> /\ npass' = npass + 1 /\ nsplit' = 0 /\ phase' = "folds"
-           /\ UNCHANGED <<run, created, joined, merged, opos, seen>>
+           /\ UNCHANGED <<run, created, joined, merged, opos, seen, tally, nloo>>
 TSplit == /\ l <= Len(Tr) /\ Ev.e = "Split" /\ phase = "folds" /\ Step
           /\ Ev.grp = nsplit                                                                  \* every group, in order
           /\ LET tr == [i \in 1..Len(Ev.train) |-> Ev.train[i]]
@@ -96,11 +100,13 @@ TSplit == /\ l <= Len(Tr) /\ Ev.e = "Split" /\ phase = "folds" /\ Step
              /\ Range(te) = Range(TestOf(cur, Ev.grp))                                         \* Prop: the fold's own members
              /\ (PropOnly \/ (tr = TrainOf(cur, Ev.grp) /\ te = TestOf(cur, Ev.grp)))          \* Impl: copy order
              /\ seenTest' = seenTest \o te
+             /\ tally' = [i \in DOMAIN tally |-> tally[i] + Count(te, i - 1)]
           /\ nsplit' = nsplit + 1
-          /\ UNCHANGED <<phase, run, created, joined, merged, opos, cur, npass, seen>>
-TRows == /\ l <= Len(Tr) /\ Ev.e = "Rows" /\ phase = "folds" /\ Step /\ Ev.ok = 1 /\ UNCHANGED <<phase, run, created, joined, merged, opos, cur, seenTest, npass, nsplit, seen>>
+          /\ UNCHANGED <<phase, run, created, joined, merged, opos, cur, npass, seen, nloo>>
+TRows == /\ l <= Len(Tr) /\ Ev.e = "Rows" /\ phase = "folds" /\ Step /\ Ev.ok = 1 /\ UNCHANGED <<phase, run, created, joined, merged, opos, cur, seenTest, npass, nsplit, seen, tally, nloo>>
 TPred == /\ l <= Len(Tr) /\ Ev.e = "Pred" /\ phase \in {"orch", "folds", "pred"} /\ Step
          /\ (phase = "orch" => OrchComplete) /\ (phase # "pred" => PassComplete)
+         /\ (run.scheme = "loo" => nloo \in {0, run.n})        \* row routing logged for every model (or the hook is absent: driver reports it)
          /\ Ev.finite = 1                                     \* every object receives a finite prediction
          /\ Ev.refit <= Tol                                   \* = prediction of a model refitted on exactly the other folds
          /\ Ev.sens \in {-2, -1, 0}                           \* unchanged when only the object's own response changes (-1: not measured,
@@ -109,22 +115,47 @@ TPred == /\ l <= Len(Tr) /\ Ev.e = "Pred" /\ phase \in {"orch", "folds", "pred"}
          /\ Ev.cnt = Ev.passes                                \* predicted once in every pass
          /\ (run.scheme = "boot" => Ev.passes = Len(merged) /\ Ev.passes = npass)
          /\ seen' = IF Ev.sens # -1 THEN seen \cup {"Sens"} ELSE seen
-         /\ phase' = "pred" /\ UNCHANGED <<run, created, joined, merged, opos, cur, seenTest, npass, nsplit>>
+         /\ phase' = "pred" /\ UNCHANGED <<run, created, joined, merged, opos, cur, seenTest, npass, nsplit, tally, nloo>>
 TResid == /\ l <= Len(Tr) /\ Ev.e = "Resid" /\ phase = "pred" /\ Step
           /\ Ev.err <= Tol                                    \* residual = prediction - matching response column
           /\ Ev.resp = Ev.col % run.ny /\ Ev.lv = Ev.col \div run.ny + 1
-          /\ UNCHANGED <<phase, run, created, joined, merged, opos, cur, seenTest, npass, nsplit, seen>>
+          /\ UNCHANGED <<phase, run, created, joined, merged, opos, cur, seenTest, npass, nsplit, seen, tally, nloo>>
+\* LeaveOneOut row routing as the routine really did it (hooks in its copy loop): model m is fitted on every object but m and predicts m.
+\* Prop: the test row is m, m is not among the training rows, no row twice, training rows + test row exhaust the data (out-of-sample + exhaustive).
+\* Impl: the training rows are all j # m in the original order and the write position counts up from 0; the models come in order.
+LooTrain(m, n) == SelectSeq([j \in 1..n |-> j - 1], LAMBDA v : v # m)
+TLooSplit == /\ l <= Len(Tr) /\ Ev.e = "LooSplit" /\ phase \in {"orch", "folds"} /\ run.scheme = "loo" /\ Step
+             /\ (phase = "orch" => OrchComplete)
+             /\ LET tr == [i \in 1..Len(Ev.train) |-> Ev.train[i]]
+                    te == [i \in 1..Len(Ev.test) |-> Ev.test[i]]
+                    ps == [i \in 1..Len(Ev.pos) |-> Ev.pos[i]] IN
+                /\ Ev.m = nloo /\ Ev.m < run.n                                                 \* every model once
+                /\ te = <<Ev.m>>                                                               \* Prop: the left-out object is the test row
+                /\ SplitIsSound(tr, te, run.n)                                                 \* Prop: out-of-sample + exhaustive
+                /\ (PropOnly \/ (tr = LooTrain(Ev.m, run.n) /\ ps = [i \in 1..(run.n - 1) |-> i - 1]))   \* Impl: order
+             /\ nloo' = nloo + 1 /\ phase' = "folds"
+             /\ UNCHANGED <<run, created, joined, merged, opos, cur, seenTest, npass, nsplit, seen, tally>>
+\* the bootstrap's own visit counter of object i when it divides the sum (hook boot_counter).
+\* Prop (CvBoot!CounterIsPasses on the recording): it equals the number of logged passes in which object i sat in a test fold - a lost update on
+\* a counter shared between workers shows here whatever the predicted values are.  Impl: the hook reports the requested iteration count.
+TCounter == /\ l <= Len(Tr) /\ Ev.e = "Counter" /\ phase = "folds" /\ run.scheme = "boot" /\ Step
+            /\ PassComplete /\ Ev.i \in 0..(run.n - 1)
+            /\ Ev.fired = 1                                                                      \* once per object
+            /\ Ev.cnt = tally[Ev.i + 1]                                                          \* Prop
+            /\ (PropOnly \/ (Ev.iters = run.iters /\ Ev.cnt = npass))                             \* Impl
+            /\ seen' = seen \cup {"Counter"}
+            /\ UNCHANGED <<phase, run, created, joined, merged, opos, cur, seenTest, npass, nsplit, tally, nloo>>
 \* the caller's output objects after the call: still alive (K7: an output that is already sized for ANOTHER shape must be resized in
 \* place - replacing it by a new object leaves the caller's pointer dangling) - checked before anything reads them
 TOut == /\ l <= Len(Tr) /\ Ev.e = "Out" /\ phase = "orch" /\ run.scheme \in CvSchemes /\ Step
         /\ Ev.pred_freed = 0 /\ Ev.res_freed = 0
         /\ seen' = seen \cup {"Out"}
-        /\ UNCHANGED <<phase, run, created, joined, merged, opos, cur, seenTest, npass, nsplit>>
+        /\ UNCHANGED <<phase, run, created, joined, merged, opos, cur, seenTest, npass, nsplit, tally, nloo>>
 \* the residual-only call (predicted_y = NULL): still prediction minus the matching response column, for every object and column
 TResOnly == /\ l <= Len(Tr) /\ Ev.e = "ResOnly" /\ phase = "pred" /\ Repeatable(run) /\ Step
             /\ Ev.err <= Tol /\ Ev.shape = 1
             /\ seen' = seen \cup {"ResOnly"}
-            /\ UNCHANGED <<phase, run, created, joined, merged, opos, cur, seenTest, npass, nsplit>>
+            /\ UNCHANGED <<phase, run, created, joined, merged, opos, cur, seenTest, npass, nsplit, tally, nloo>>
 \* the public train_test_split(): the test ids it reports and the ids read back from the rows it copied (x[i] = i)
 \* Prop: test and training parts are disjoint, duplicate-free and together exhaust the data; the rows copied are the rows of the ids.
 \* Impl: the test part holds ceil(fraction * n) objects, the training part keeps the original order.
@@ -138,14 +169,14 @@ TTts == /\ l <= Len(Tr) /\ Ev.e = "Tts" /\ phase = "orch" /\ run.scheme = "tts" 
            /\ id = te /\ Ev.rows = 1                                                          \* Prop: reported ids = copied rows
            /\ (PropOnly \/ (Len(te) = CeilDiv(Ev.num * Ev.n, Ev.den) /\ Increasing(tr)))      \* Impl
         /\ phase' = "folds"
-        /\ UNCHANGED <<run, created, joined, merged, opos, cur, seenTest, npass, nsplit, seen>>
+        /\ UNCHANGED <<run, created, joined, merged, opos, cur, seenTest, npass, nsplit, seen, tally, nloo>>
 TEnd == /\ l <= Len(Tr) /\ Ev.e = "End" /\ phase \in {"folds", "pred"} /\ Step
         /\ (phase = "folds" => PassComplete)
         /\ Ev.shape = 1
         /\ (run.scheme \in CvSchemes => "Out" \in seen /\ phase = "pred")                       \* vacuity: the driver really observed the outputs
         /\ (run.scheme \in CvSchemes /\ Repeatable(run) => {"Sens", "ResOnly"} \subseteq seen)  \* ... and made both repeated-run measurements
-        /\ phase' = "idle" /\ UNCHANGED <<run, created, joined, merged, opos, cur, seenTest, npass, nsplit, seen>>
-TNext == TReset \/ TRun \/ TTts \/ TOut \/ TResOnly \/ TCreate \/ TJoin \/ TMerge \/ TGroups \/ TSplit \/ TRows \/ TPred \/ TResid \/ TEnd
+        /\ phase' = "idle" /\ UNCHANGED <<run, created, joined, merged, opos, cur, seenTest, npass, nsplit, seen, tally, nloo>>
+TNext == TReset \/ TRun \/ TTts \/ TOut \/ TResOnly \/ TLooSplit \/ TCounter \/ TCreate \/ TJoin \/ TMerge \/ TGroups \/ TSplit \/ TRows \/ TPred \/ TResid \/ TEnd
 TSpec == TInit /\ [][TNext]_tvars
 TraceAccepted == Accepted
 Diag == ShowCursor(l)
